@@ -31,6 +31,7 @@ type ProxyScenario struct {
 	Body      string `json:"body"`
 	Failure   string `json:"failure"`
 	Expect    string `json:"expect"`
+	Conc      bool   `json:"conc"`
 }
 
 // backend-side observations of the proxy scenarios
@@ -191,8 +192,54 @@ func metaMap(cmd erpc.CallCmd) string {
 
 func runProxy(rec *Rec, w *histWorld, sc *ProxyScenario, rnd *rand.Rand) {
 	rec.SetTrace(sc.ID, map[string]interface{}{"mode": "proxy", "kind": sc.Kind, "method": sc.Method, "codec": sc.Codec, "reqmeta": sc.ReqMeta,
-		"replymeta": sc.ReplyMeta, "body": sc.Body, "failure": sc.Failure, "expect": sc.Expect})
+		"replymeta": sc.ReplyMeta, "body": sc.Body, "failure": sc.Failure, "expect": sc.Expect, "conc": sc.Conc})
 	w.ensureFwd()
+	if sc.Conc {
+		// 8 goroutines x 25 proxied calls at the same time; every reply carries metadata derived from its own argument
+		route := "/px/echo"
+		if sc.Codec == "p" {
+			route = "/pxp/echo"
+		}
+		var wg sync.WaitGroup
+		var okN, wrong, errs int32
+		for g := 0; g < 8; g++ {
+			wg.Add(1)
+			go func(g int) {
+				defer wg.Done()
+				for i := 0; i < 25; i++ {
+					k := g*25 + i
+					pad := "RM1" + string([]byte{alnum[k%62], alnum[(k/62)%62], alnum[(k*7)%62]}) + "-own"
+					tag := fmt.Sprintf("%s.c%d", sc.ID, k)
+					var arg, res interface{}
+					var read func() string
+					if sc.Codec == "p" {
+						r := new(pb.Payload)
+						arg, res, read = &pb.Payload{ServiceMethod: tag, Body: []byte(pad)}, r, func() string { return r.ServiceMethod + "|" + string(r.Body) }
+					} else {
+						r := new(Res)
+						arg, res, read = &Arg{Tag: tag, Pad: pad}, r, func() string { return r.Tag + "|" + r.Pad }
+					}
+					cmd := w.viaProxy.Call(route, arg, res, erpc.WithBodyCodec(sc.Codec[0]), erpc.WithAddMeta("qk", "qv"))
+					switch {
+					case !cmd.StatusOK():
+						atomic.AddInt32(&errs, 1)
+					case read() == F(tag)+"|"+pad && metaMap(cmd) == "rk=rv-"+pad[:6]+";":
+						atomic.AddInt32(&okN, 1)
+					default:
+						atomic.AddInt32(&wrong, 1)
+					}
+				}
+			}(g)
+		}
+		wd := make(chan struct{})
+		go func() { wg.Wait(); close(wd) }()
+		select {
+		case <-wd:
+		case <-time.After(20 * time.Second):
+		}
+		rec.Emit("ProxyConc", "total", 200, "ok", atomic.LoadInt32(&okN), "wrong", atomic.LoadInt32(&wrong), "errs", atomic.LoadInt32(&errs))
+		return
+	}
 	rs := func(k int) string {
 		b := make([]byte, k)
 		for i := range b {
